@@ -382,4 +382,265 @@ theorem start_inv (cfg : Cfg) (caps : List Nat) (t0 : Nat) : Inv cfg (World.star
   obtain ⟨cap, _, rfl⟩ := hch
   exact ⟨fun e he => by simp at he, List.Pairwise.nil, Nat.zero_le _⟩
 
+/-! ### what a worker with an empty cache answers -/
+
+/-- the outcome of `finish` does not depend on the world -/
+def finishOut (cfg : Cfg) (rq : Req) (c : Cursor) (rc : RC) : Outcome :=
+  if !cfg.decodes rq.method c.writer then .rejected .stateDecode
+  else .served rq.method rc c rq.cancel
+
+theorem finish_out (cfg : Cfg) (W : World) (rq : Req) (c : Cursor) (rc : RC) :
+    (finish cfg W rq c rc).2 = finishOut cfg rq c rc := by
+  unfold finish finishOut
+  split
+  · rfl
+  · split <;> simp_all
+
+/-- cursor token, then call token: the cold path -/
+def coldOutcome (cfg : Cfg) (W : World) (rq : Req) : Outcome :=
+  match openCursor cfg W rq with
+  | .error r => .rejected r
+  | .ok c =>
+    match resolveCall cfg W rq c.cid with
+    | .error r => .rejected r
+    | .ok (rc, _) => finishOut cfg rq c rc
+
+theorem emptied_cache_entries (W : World) (w : Nat) : (W.emptied.cache w).entries = [] := by
+  unfold World.cache World.emptied
+  simp only [List.getElem?_map]
+  cases W.caches[w]? <;> rfl
+
+theorem get_of_empty (c : Cache) (h : c.entries = []) (cid : Nat) (k : List Char) (now : Nat) :
+    c.get cid k now = (c, none) := by
+  simp [Cache.get, h]
+
+/-- a miss answers as the cold path does, whatever the cache holds -/
+theorem miss_cold (cfg : Cfg) (W : World) (w : Nat) (rq : Req)
+    (hmiss : ∀ c, openCursor cfg W rq = .ok c →
+      ((W.cache w).get c.cid (identKey rq.ident) W.now).2 = none) :
+    (serveCont cfg W w rq).2 = coldOutcome cfg W rq := by
+  unfold serveCont coldOutcome
+  cases hopen : openCursor cfg W rq with
+  | error r => rfl
+  | ok c =>
+    have hm := hmiss c hopen
+    rcases hg : (W.cache w).get c.cid (identKey rq.ident) W.now with ⟨cache1, _ | rc⟩
+    · simp only [hg]
+      cases hres : resolveCall cfg W rq c.cid with
+      | error r => rfl
+      | ok p => obtain ⟨rc, cr⟩ := p; exact finish_out _ _ _ _ _
+    · rw [hg] at hm; simp at hm
+
+theorem cold_emptied (cfg : Cfg) (W : World) (w : Nat) (rq : Req) :
+    (serveCont cfg W.emptied w rq).2 = coldOutcome cfg W rq := by
+  have h := miss_cold cfg W.emptied w rq (fun c _ => by
+    rw [get_of_empty _ (emptied_cache_entries W w)])
+  exact h
+
+/-- the request echoes the call token handed out with the call its cursor names (WIRE_PROTOCOL: MUST echo, unchanged) -/
+def Echo (W : World) (rq : Req) : Prop :=
+  ∀ i c, rq.cur = .issued i → W.cursors[i]? = some c → rq.call = .issued c.cid
+
+/-- on a hit: the call token the cursor's call would present is still valid, and the method check is not skipped -/
+def HitSafe (cfg : Cfg) (W : World) (w : Nat) (rq : Req) : Prop :=
+  ∀ c cl e, openCursor cfg W rq = .ok c → W.calls[c.cid]? = some cl → e ∈ (W.cache w).entries →
+    e.cid = c.cid → e.ikey = identKey rq.ident → Gen.C14.entryDead e.expires W.now = false →
+    EntryOk cfg W.calls e →
+    Gen.C14.tokenExpired cfg.ttl (W.nowS cfg) cl.created = false ∧
+      (cfg.shape.hitChecksType = true ∨ typeOk cfg rq.method cl.rc = true)
+
+/-- what a hit hands back: the call minted under the cursor's call id, for a caller with the same AAD identity -/
+theorem hit_sound {cfg : Cfg} {W : World} (hinv : Inv cfg W) (w : Nat) (rq : Req) (c : Cursor) (rc : RC)
+    (cache1 : Cache) (hopen : openCursor cfg W rq = .ok c)
+    (hg : (W.cache w).get c.cid (identKey rq.ident) W.now = (cache1, some rc)) :
+    ∃ cl e, W.calls[c.cid]? = some cl ∧ rc = cl.rc ∧ aadTail cl.owner = aadTail rq.ident ∧
+      e ∈ (W.cache w).entries ∧ e.cid = c.cid ∧ e.ikey = identKey rq.ident ∧
+      Gen.C14.entryDead e.expires W.now = false ∧ EntryOk cfg W.calls e := by
+  obtain ⟨⟨i, _, hci⟩, haad, _⟩ := openCursor_ok hopen
+  obtain ⟨clc, hclc, haadc⟩ := hinv.cursors c (List.mem_of_getElem? hci)
+  have g := (get_spec (W.cache w) c.cid (identKey rq.ident) W.now).hit rc (by rw [hg])
+  obtain ⟨e, hmem, hcid, hkey, hrc, hlive⟩ := g
+  have hok := (cacheOk_cache hinv.caches w).1 e hmem
+  have hok2 := hok
+  obtain ⟨cl, hcl, hrc2, _, _⟩ := hok2
+  rw [hcid, hclc] at hcl
+  have : clc = cl := by simpa using hcl
+  subst this
+  exact ⟨clc, e, hclc, hrc.symm.trans hrc2, haadc.symm.trans haad, hmem, hcid, hkey, hlive, hok⟩
+
+theorem hit_cold {cfg : Cfg} {W : World} (hinv : Inv cfg W) (w : Nat) (rq : Req)
+    (hecho : Echo W rq) (hsafe : HitSafe cfg W w rq) (c : Cursor) (rc : RC) (cache1 : Cache)
+    (hopen : openCursor cfg W rq = .ok c)
+    (hg : (W.cache w).get c.cid (identKey rq.ident) W.now = (cache1, some rc)) :
+    (serveCont cfg W w rq).2 = coldOutcome cfg W rq := by
+  obtain ⟨cl, e, hcl, hrc, haad, hmem, hcid, hkey, hlive, hok⟩ := hit_sound hinv w rq c rc cache1 hopen hg
+  obtain ⟨⟨i, hcur, hci⟩, _, _⟩ := openCursor_ok hopen
+  have hcall := hecho i c hcur hci
+  obtain ⟨hfresh, hty⟩ := hsafe c cl e hopen hcl hmem hcid hkey hlive hok
+  have hres : resolveCall cfg W rq c.cid
+      = if !typeOk cfg rq.method cl.rc then .error .callType else .ok (cl.rc, cl.created) := by
+    unfold resolveCall
+    simp only [hcall, hcl, haad, ne_eq, not_true_eq_false, if_false, hfresh, Bool.false_eq_true]
+  unfold serveCont coldOutcome
+  simp only [hopen, hg, hres, hrc]
+  cases ht : typeOk cfg rq.method cl.rc with
+  | true => simp [finish_out]
+  | false =>
+    rcases hty with hty | hty
+    · simp [hty]
+    · rw [ht] at hty; exact absurd hty (by simp)
+
+theorem warm_cold {cfg : Cfg} {W : World} (hinv : Inv cfg W) (w : Nat) (rq : Req)
+    (hecho : Echo W rq) (hsafe : HitSafe cfg W w rq) :
+    (serveCont cfg W w rq).2 = coldOutcome cfg W rq := by
+  cases hopen : openCursor cfg W rq with
+  | error r => exact miss_cold cfg W w rq (fun c hc => by rw [hopen] at hc; exact absurd hc (by simp))
+  | ok c =>
+    rcases hg : (W.cache w).get c.cid (identKey rq.ident) W.now with ⟨cache1, _ | rc⟩
+    · apply miss_cold
+      intro c' hc'
+      rw [hopen] at hc'
+      have : c = c' := by simpa using hc'
+      subst this
+      rw [hg]
+    · exact hit_cold hinv w rq hecho hsafe c rc cache1 hopen hg
+
+/-- when entries age from the call token and the hit branch keeps the type check, every hit is safe -/
+theorem hitSafe_of_repaired {cfg : Cfg} {W : World} (w : Nat) (rq : Req)
+    (hm : cfg.shape.missAnchor = .created) (ht : cfg.shape.hitChecksType = true) : HitSafe cfg W w rq := by
+  intro c cl e _ hcl _ hcid _ hlive hok
+  refine ⟨?_, Or.inl ht⟩
+  obtain ⟨cl', hcl', _, _, hb⟩ := hok
+  rw [hcid, hcl] at hcl'
+  have : cl = cl' := by simpa using hcl'
+  subst this
+  by_cases httl : 0 < cfg.ttl
+  · exact live_entry_fresh cfg W.now e.expires cl.created hlive (hb hm httl)
+  · have : cfg.ttl = 0 := by omega
+    rw [this]; exact tokenExpired_ttl0 _ _
+
+/-! ### requests that do not echo the call token -/
+
+/-- the same request with the call token the protocol says it must carry -/
+def echoed (W : World) (rq : Req) : Req :=
+  match rq.cur with
+  | .junk => rq
+  | .issued i =>
+    match W.cursors[i]? with
+    | none => rq
+    | some c => { rq with call := .issued c.cid }
+
+theorem echoed_fields (W : World) (rq : Req) :
+    (echoed W rq).ident = rq.ident ∧ (echoed W rq).method = rq.method ∧ (echoed W rq).cur = rq.cur ∧
+      (echoed W rq).cancel = rq.cancel := by
+  unfold echoed
+  split
+  · exact ⟨rfl, rfl, rfl, rfl⟩
+  · split <;> exact ⟨rfl, rfl, rfl, rfl⟩
+
+theorem echoed_echo (W : World) (rq : Req) : Echo W (echoed W rq) := by
+  intro i c hcur hc
+  have hf := (echoed_fields W rq).2.2.1
+  rw [hf] at hcur
+  unfold echoed
+  simp only [hcur, hc]
+
+theorem openCursor_congr (cfg : Cfg) (W : World) (rq rq' : Req) (h1 : rq'.ident = rq.ident) (h2 : rq'.cur = rq.cur) :
+    openCursor cfg W rq' = openCursor cfg W rq := by
+  unfold openCursor; rw [h1, h2]
+
+/-- on a hit nothing of the presented call token is consulted -/
+theorem hit_ignores_call (cfg : Cfg) (W : World) (w : Nat) (rq rq' : Req)
+    (h1 : rq'.ident = rq.ident) (h2 : rq'.method = rq.method) (h3 : rq'.cur = rq.cur) (h4 : rq'.cancel = rq.cancel)
+    (c : Cursor) (rc : RC) (cache1 : Cache) (hopen : openCursor cfg W rq = .ok c)
+    (hg : (W.cache w).get c.cid (identKey rq.ident) W.now = (cache1, some rc)) :
+    (serveCont cfg W w rq').2 = (serveCont cfg W w rq).2 := by
+  have hopen' : openCursor cfg W rq' = .ok c := by rw [openCursor_congr cfg W rq rq' h1 h3]; exact hopen
+  have hg' : (W.cache w).get c.cid (identKey rq'.ident) W.now = (cache1, some rc) := by rw [h1]; exact hg
+  unfold serveCont
+  simp only [hopen, hopen', hg, hg', h2]
+  split
+  · rfl
+  · rw [finish_out, finish_out]; unfold finishOut; rw [h2, h4]
+
+/-! ### whatever is served was minted for the caller -/
+
+theorem finishOut_served {cfg : Cfg} {rq : Req} {c c' : Cursor} {rc rc' : RC} {m : Nat} {k : Bool}
+    (h : finishOut cfg rq c rc = .served m rc' c' k) : rc' = rc ∧ c' = c := by
+  unfold finishOut at h
+  split at h
+  · exact absurd h (by simp)
+  · simp only [Outcome.served.injEq] at h; exact ⟨h.2.1.symm, h.2.2.1.symm⟩
+
+theorem served_sound {cfg : Cfg} {W : World} (hinv : Inv cfg W) (w : Nat) (rq : Req) (m : Nat) (rc : RC)
+    (c : Cursor) (k : Bool) (h : (serveCont cfg W w rq).2 = .served m rc c k) :
+    ∃ cl, W.calls[c.cid]? = some cl ∧ cl.rc = rc ∧ aadTail cl.owner = aadTail rq.ident := by
+  unfold serveCont at h
+  cases hopen : openCursor cfg W rq with
+  | error r => rw [hopen] at h; exact absurd h (by simp)
+  | ok c0 =>
+    rcases hg : (W.cache w).get c0.cid (identKey rq.ident) W.now with ⟨cache1, _ | rc0⟩
+    · simp only [hopen, hg] at h
+      cases hres : resolveCall cfg W rq c0.cid with
+      | error r => rw [hres] at h; exact absurd h (by simp)
+      | ok p =>
+        obtain ⟨rc1, cr⟩ := p
+        rw [hres] at h
+        simp only [finish_out] at h
+        obtain ⟨h1, h2⟩ := finishOut_served h
+        obtain ⟨cl, hcl, hrc, _, haad, _⟩ := resolveCall_ok hres
+        subst h1 h2
+        exact ⟨cl, hcl, hrc.symm, haad⟩
+    · simp only [hopen, hg] at h
+      split at h
+      · exact absurd h (by simp)
+      · simp only [finish_out] at h
+        obtain ⟨h1, h2⟩ := finishOut_served h
+        obtain ⟨cl, _, hcl, hrc, haad, _⟩ := hit_sound hinv w rq c0 rc0 cache1 hopen hg
+        subst h1 h2
+        exact ⟨cl, hcl, hrc.symm, haad⟩
+
+/-- AAD equality is identity equality when domains carry no NUL (the separator) -/
+theorem append_sep_inj {α} (a : α) : ∀ (d d' p p' : List α), a ∉ d → a ∉ d' → d ++ a :: p = d' ++ a :: p' →
+    d = d' ∧ p = p' := by
+  intro d
+  induction d with
+  | nil =>
+    intro d' p p' _ hd' h
+    cases d' with
+    | nil => simpa using h
+    | cons x t =>
+      simp only [List.nil_append, List.cons_append, List.cons.injEq] at h
+      exact absurd (h.1 ▸ List.mem_cons_self) hd'
+  | cons x t ih =>
+    intro d' p p' hd hd' h
+    cases d' with
+    | nil =>
+      simp only [List.nil_append, List.cons_append, List.cons.injEq] at h
+      exact absurd (h.1 ▸ List.mem_cons_self) hd
+    | cons y t' =>
+      simp only [List.cons_append, List.cons.injEq] at h
+      have := ih t' p p' (fun hm => hd (List.mem_cons_of_mem _ hm)) (fun hm => hd' (List.mem_cons_of_mem _ hm)) h.2
+      exact ⟨by rw [h.1, this.1], this.2⟩
+
+def NulFreeDomain : Ident → Prop
+  | .anon => True
+  | .user d _ => Char.ofNat 0 ∉ d
+
+theorem aad_injective {x y : Ident} (hx : NulFreeDomain x) (hy : NulFreeDomain y) (h : aadTail x = aadTail y) :
+    x = y := by
+  cases x with
+  | anon =>
+    cases y with
+    | anon => rfl
+    | user d p => exfalso; simp [aadTail, Gen.C14.aadAnonTail, Gen.C14.aadUserTag] at h
+  | user d p =>
+    cases y with
+    | anon => exfalso; simp [aadTail, Gen.C14.aadAnonTail, Gen.C14.aadUserTag] at h
+    | user d' p' =>
+      simp only [aadTail, Gen.C14.aadUserTag, Gen.C14.aadSep, List.append_assoc, List.cons_append,
+        List.nil_append, List.cons.injEq, true_and] at h
+      obtain ⟨h1, h2⟩ := append_sep_inj (Char.ofNat 0) d d' p p' hx hy h
+      rw [h1, h2]
+
 end VgiVerif.C14
